@@ -421,10 +421,18 @@ func (propC14) Run(scI interface{}) *Outcome {
 			}
 			ref, _ := c14Render(sc.Prog, nil, build(shortPad))
 			if ref.Class == "ok" && sc.PadKind != "nesting" {
-				for _, n := range sc.PadLens {
+				padLens := sc.PadLens
+				if sc.PadKind == "comment" {
+					padLens = append([]int{-1}, padLens...) // -1: the zero-length comment {##} (length 0 is a length too)
+				}
+				for _, n := range padLens {
 					per := n / (len(main.Segs) + 1)
 					if per < 1 {
 						per = 1
+					}
+					if n == -1 {
+						per = 0
+						o.Probes["zero_length_comment_pads"]++
 					}
 					var pad, want string
 					switch sc.PadKind {
